@@ -10,7 +10,7 @@
 (***************************************************************************)
 EXTENDS Loader, Json
 
-CONSTANTS KnownDev
+CONSTANTS KnownDev, WithIntro
 
 ID == Named("ID")
 TagLocs == <<"OBJECT", "FIELD_DEFINITION", "ARGUMENT_DEFINITION", "ENUM_VALUE", "INPUT_FIELD_DEFINITION", "INTERFACE", "UNION",
@@ -126,6 +126,17 @@ Mutations(doc) ==
   \cup { Mut(Append(doc, DirectiveD("dflt", <<ArgDD("x", I, StrV("notanint"))>>, <<"OBJECT">>)), "directive_arg_default") }
   \* ---- control: still valid after a harmless change
   \cup { Mut(Append(doc, ObjectD("Extra", <<>>, <<FieldD("x", I, <<>>)>>)), "valid_extra_type"), Mut(doc, "valid_unchanged") }
+  \* deprecated members of every kind, with and without a reason (C17: deprecation flag, reason, includeDeprecated)
+  \cup { Mut(doc \o << InterfaceD("Old", <<FieldD("keep", S, <<>>), WD(FieldD("gone", S, <<>>), <<DU("deprecated", <<>>)>>)>>),
+                      ObjectD("Impl", <<"Old">>, <<FieldD("keep", S, <<>>), WD(FieldD("gone", S, <<>>), <<DU("deprecated", <<AV("reason", StrV("because"))>>)>>),
+                                                  WD(FieldD("also", I, <<ArgD("x", I)>>), <<DU("deprecated", <<>>)>>)>>),
+                      EnumD("Dep", <<EV("KEEP"), WD(EV("GONE"), <<DU("deprecated", <<AV("reason", StrV("old value"))>>)>>), WD(EV("GONE2"), <<DU("deprecated", <<>>)>>)>>) >>,
+              "valid_deprecated_members") }
+  \* an object implementing two interfaces and a union extended later (C17: interfaces, possibleTypes)
+  \cup { Mut(doc \o << InterfaceD("I1", <<FieldD("p", S, <<>>)>>), InterfaceD("I2", <<FieldD("q", I, <<>>)>>),
+                      ObjectD("Both", <<"I1", "I2">>, <<FieldD("p", S, <<>>), FieldD("q", I, <<>>)>>),
+                      ObjectD("OnlyI1", <<"I1">>, <<FieldD("p", NonNull(S), <<>>)>>),
+                      UnionD("Mix", <<"Both">>), Ext(UnionD("Mix", <<"OnlyI1">>)) >>, "valid_two_interfaces") }
 
 VARIABLES phase, cs
 rvars == <<phase, cs>>
@@ -139,11 +150,12 @@ ResultK == LoadResult(EmptySchema, cs.doc, KnownDev)
 BasesValid == \A b \in DOMAIN Bases : LoadResult(EmptySchema, Bases[b], {}).ok
 \* every mutation but the controls is refused by the specification, the controls are accepted
 MutationsRefused == phase = "case" =>
-  IF cs.mut \in {"valid_extra_type", "valid_unchanged", "valid_directive_on_directive_arg"} THEN Result.ok ELSE ~Result.ok
+  IF cs.mut \in {"valid_extra_type", "valid_unchanged", "valid_directive_on_directive_arg", "valid_deprecated_members", "valid_two_interfaces"} THEN Result.ok ELSE ~Result.ok
 
 \* all names an error may mention to "name the offender": those of every violated rule
 Offs(r) == IF r.ok THEN {} ELSE IF r.why # "invalid" THEN {r.off} ELSE r.offs
 Step(r) == [doc |-> cs.doc, ok |-> r.ok, why |-> r.why, off |-> r.off, offs |-> Offs(r), canon |-> Canon(r.s)]
+             @@ (IF WithIntro /\ r.ok THEN [intro |-> Intro(r.s)] ELSE <<>>)
 Same(a, b) == a.ok = b.ok /\ Offs(a) = Offs(b) /\ Canon(a.s) = Canon(b.s)
 Vector ==
   IF Same(Result, ResultK)
